@@ -146,6 +146,12 @@ impl Write for SchedWriter {
         self.write_spans.push((t0, t1));
         r
     }
+    /// A gathering write: the same per-call schedule applies to the concatenation of the buffers offered (a sink
+    /// that really implements vectored writes may accept a byte count that ends in the middle of any of them).
+    fn write_vectored(&mut self, bufs: &[io::IoSlice<'_>]) -> io::Result<usize> {
+        let all: Vec<u8> = bufs.iter().flat_map(|b| b.iter().copied()).collect();
+        self.write(&all)
+    }
     fn flush(&mut self) -> io::Result<()> {
         Ok(())
     }
@@ -247,6 +253,8 @@ pub struct TestPort {
     pub fail_kind: FailKind,
     pub timeout: Option<Duration>,
     pub config_calls: Vec<&'static str>,
+    /// flush() reports an error (the library itself never needs to flush: every write goes straight to the port)
+    pub flush_fails: bool,
 }
 impl TestPort {
     pub fn new(rd: SchedReader, wr: SchedWriter) -> Self {
@@ -264,6 +272,7 @@ impl TestPort {
             fail_kind: FailKind::NoDevice,
             timeout: None,
             config_calls: vec![],
+            flush_fails: false,
         }
     }
 }
@@ -276,7 +285,13 @@ impl Write for TestPort {
     fn write(&mut self, buf: &[u8]) -> io::Result<usize> {
         self.wr.write(buf)
     }
+    fn write_vectored(&mut self, bufs: &[io::IoSlice<'_>]) -> io::Result<usize> {
+        self.wr.write_vectored(bufs)
+    }
     fn flush(&mut self) -> io::Result<()> {
+        if self.flush_fails {
+            return Err(io::Error::new(io::ErrorKind::Other, "drain failed"));
+        }
         Ok(())
     }
 }
@@ -607,7 +622,7 @@ pub fn eval_io_case(t: &[&str]) -> Option<String> {
             let slow = timing && t.get(3) == Some(&"slow");
             let empty: [&str; 0] = [];
             let (rs, ws): (&[&str], &[&str]) = if timing { (&empty[..], &empty[..]) } else { split_at("/", &t[3..]) };
-            let trials = if !timing { 1 } else if slow { 3 } else { 15 };
+            let trials = if !timing { 1 } else if slow { 3 } else { 12 };
             let mut min_send = Duration::from_secs(3600);
             let mut min_recv = Duration::from_secs(3600);
             let mut min_pre = Duration::from_secs(3600);
@@ -619,13 +634,21 @@ pub fn eval_io_case(t: &[&str]) -> Option<String> {
                     wr.cost = Duration::from_millis(20);
                     rd.latency = Duration::from_millis(40);
                 }
-                let port = TestPort::new(rd, wr);
+                let mut port = TestPort::new(rd, wr);
+                // trial modes (timing only): 0 plain; 1 a pending wake-up token on the thread; 2 an earlier exchange on
+                // the same bus followed by a 120 ms break of the caller; 3 a port whose flush() fails
+                let mode = if timing { trial % 4 } else { 0 };
+                port.flush_fails = mode == 3;
                 let mut bus = match SerialSignBus::try_new(port) {
                     Ok(b) => b,
                     Err(_) => return Some("ER SETUP".to_string()),
                 };
                 let m = msg_of_str(t[1]);
-                if timing && trial % 2 == 1 {
+                if mode == 2 {
+                    let _ = guarded(|| bus.process_message(msg_of_str("DC.0")));
+                    std::thread::sleep(Duration::from_millis(120));
+                }
+                if mode == 1 {
                     // state an earlier, unrelated call may have left on this thread: a pending wake-up token
                     std::thread::current().unpark();
                 }
@@ -649,18 +672,18 @@ pub fn eval_io_case(t: &[&str]) -> Option<String> {
                 // neither paced nor answered and measure from the end of the first frame's write to the start of the next.
                 let _ = guarded(|| bus.process_message(msg_of_str("DC.0")));
                 let port = bus.port();
-                let first_end = port.wr.write_spans.iter().filter(|(_, e)| *e <= end).map(|(_, e)| *e).last();
+                let first_end = port.wr.write_spans.iter().filter(|(s, e)| *s >= start && *e <= end).map(|(_, e)| *e).last();
                 let next_start = port.wr.write_spans.iter().filter(|(s, _)| *s >= end).map(|(s, _)| *s).next();
                 if let (Some(we), Some(ns)) = (first_end, next_start) {
                     // idle time after the write that is not spent reading the reply or in the post-receive delay:
                     // until the read starts (or the call returns), plus from the return to the next frame's write
-                    let until = port.rd.first_read_start.unwrap_or(end);
+                    let until = port.rd.first_read_start.filter(|r| *r >= start).unwrap_or(end);
                     min_send = min_send.min(until.saturating_duration_since(we) + ns.saturating_duration_since(end));
                 }
-                if let Some(ws) = port.wr.first_write_start {
+                if let Some(ws) = port.wr.write_spans.iter().map(|(s, _)| *s).find(|s| *s >= start) {
                     min_pre = min_pre.min(ws.duration_since(start));
                 }
-                if let Some(re) = port.rd.last_read_end {
+                if let Some(re) = port.rd.last_read_end.filter(|r| *r >= start) {
                     min_recv = min_recv.min(end.saturating_duration_since(re));
                 } else {
                     min_recv = Duration::from_secs(0);
